@@ -655,3 +655,36 @@ def null_case_region(f, is_producer, first_of_pair=False, producer_fn="the looku
     return hits[0]
 
 
+
+
+
+def expand_locals(e, body, depth=3):
+    """the expression with every reference to a local that is initialised once and never written afterwards replaced by its
+    initialiser (so that provenance rules see through `auto const x = MACRO (...); use (x)`)"""
+    decls, written = {}, set()
+    for x in walk(body):
+        if x.get("k") == "decl":
+            for v in x["vars"]:
+                if v.get("init") is not None:
+                    decls.setdefault(v["id"], []).append(v["init"])
+        tgt = None
+        if x.get("k") == "asg":
+            tgt = x.get("lhs")
+        elif x.get("k") == "un" and x.get("op") in ("++", "--"):
+            tgt = x.get("e")
+        elif x.get("k") == "call" and x.get("op") in ("=", "+=", "-=", "++", "--") and x.get("a"):
+            tgt = x["a"][0]
+        t = unwrap(tgt) if tgt is not None else None
+        if isinstance(t, dict) and t.get("k") == "ref":
+            written.add(t.get("id"))
+    single = {i: v[0] for i, v in decls.items() if len(v) == 1 and i not in written}
+
+    def rec(n, d):
+        if isinstance(n, list):
+            return [rec(x, d) for x in n]
+        if not isinstance(n, dict):
+            return n
+        if n.get("k") == "ref" and n.get("d") == "local" and n.get("id") in single and d > 0:
+            return rec(single[n["id"]], d - 1)
+        return {k: rec(v, d) for k, v in n.items()}
+    return rec(e, depth)
